@@ -28,7 +28,7 @@ ASSUMPTIONS = [
     'non-degenerate variance / spread (> 0) as the property states',
 ]
 BOUNDS = {'quick': dict(n='<=3', index_selections=5), 'thorough': dict(n='<=4', index_selections=7)}
-BUDGET = {'quick': 400, 'thorough': 3600}
+BUDGET = {'quick': 1800, 'thorough': 3600}
 
 ident = lambda x: x
 
